@@ -197,6 +197,11 @@ impl Universe {
         u.addrs.insert(CONTROLLER.to_string());
         u.addrs.insert(DEAD.to_string());
         u.addrs.insert(Tgt::s().resolve().unwrap());
+        // contracts that S creates (S.create): they appear in no receipt field, only in traces and lookups
+        let s_addr: Address = Tgt::s().resolve().unwrap().parse().unwrap();
+        for n in 1..=3u64 {
+            u.addrs.insert(addr_s(s_addr.create(n)));
+        }
         u
     }
     pub fn scan(&mut self, v: &Value) {
